@@ -1,3 +1,4 @@
+import RjModel.Generated.Session
 import RjModel.Model.Frame
 import RjModel.Generated.Constants
 /-! # C10 — the link rejects forged, altered, replayed or reordered frames -/
@@ -113,5 +114,14 @@ theorem C10_replay_witness :
 /-- Non-vacuity: an honest in-order history satisfies `Unforgeable` for the toy AEAD and is delivered whole. -/
 example : (recvAll toyAEAD 7 2 par false [toyAEAD.enc 7 0 [5], toyAEAD.enc 7 2 [6], toyAEAD.enc 7 2 [6]]).delivered = [[5], [6]] := by
   decide
+
+/-- **One session per key, one key per launch** (extracted from the source on every run): the remote
+doer reads its key once, accepts exactly one TCP connection and builds exactly one encrypted link on it
+(none of the three inside a loop), and the boss generates the key with `OsRng` inside every launch (no
+process-wide key).  These are the facts that make "position in the stream" the same as "position in
+the session" in `C10_prefix`/`C10_nonce_unique`: a recorded session cannot be replayed on a second
+connection under the same key, and the two links of one boss — whose counters start at the same values —
+never share a key. -/
+theorem C10_session_features : Generated.sessionFeatures = ⟨true, true, true, true⟩ := by decide
 
 end Rj.C10
